@@ -20,7 +20,7 @@ import (
 // process gives up as INCONCLUSIVE (exit 2, never a violation). It backs up
 // the per-case join budget (which cannot be used inside a bubble, where time
 // is virtual, and does not cover Open/Close).
-const caseBudget = 300 * time.Second
+const caseBudget = 150 * time.Second
 
 // startWatchdog starts the real-time watchdog. It must be called outside any
 // synctest bubble.
@@ -33,7 +33,7 @@ func startWatchdog(id string) {
 				continue
 			}
 			if d := time.Duration(realNanos() - st); d > caseBudget {
-				dumpGoroutines(id, fmt.Sprintf("one case ran for %v (possible deadlock on a mutex, which no runtime check can prove)", d))
+				dumpGoroutines(id, "INCONCLUSIVE-TIMEOUT", fmt.Sprintf("one case ran for %v (possible deadlock on a mutex, which no runtime check can prove)", d))
 				// The driver maps "test timed out after" to exit 2 (inconclusive).
 				fmt.Printf("INCONCLUSIVE: %s: test timed out after %v in one case (wall-clock budget, not a verdict)\n", id, d)
 				os.Exit(2)
@@ -96,12 +96,12 @@ func specC42(bubble bool) evid.Spec[Plan] {
 		Assumptions: assumptions,
 		Gen:         func(t *rapid.T) Plan { return genPlan(t, "c42") },
 		Exec:        Exec,
-		Quick:       40, Thorough: 400,
+		Quick:       30, Thorough: 400,
 		Known:  knownPlans("c42"),
 		Sample: func(p Plan) any { return p.Summary() },
 	}
 	if bubble {
-		s.Quick, s.Thorough = 10, 100
+		s.Quick, s.Thorough = 8, 100
 		// demonstrations may have to abandon a DB, which a bubble cannot end with
 		s.Known = nil
 	}
